@@ -196,6 +196,15 @@ func EvalDepthExceeded(limit int) *RuntimeError {
 	}
 }
 
+// CompareDepthExceeded - the values being compared nest too deep
+func CompareDepthExceeded(limit int) *RuntimeError {
+	return &RuntimeError{
+		Code:    ErrCallDepthExceeded,
+		Message: fmt.Sprintf("参与比较的值的嵌套层数超过了上限（%d 层）", limit),
+		Extra:   limit,
+	}
+}
+
 // MostParamsError -
 func MostParamsError(maxParams int) *RuntimeError {
 	return &RuntimeError{
